@@ -10,7 +10,7 @@ COMMON_ASSUMPTIONS = [
 PLAN = {}
 NOT_APPLICABLE = {}
 # guarded (-DVATA_VERIF) instrumentation commits in /repo
-HOOK_COMMITS = ["eae8efbd", "9d95f65e", "aba84741", "8a4a5a98"]
+HOOK_COMMITS = ["eae8efbd", "9d95f65e", "aba84741", "8a4a5a98", "397fd205"]
 
 PLAN["C01"] = {
     "level": "exploration",
@@ -18,15 +18,15 @@ PLAN["C01"] = {
             "TRIMMED automata (every pair is language-equivalent to a trimmed pair because all variants trim their operands first) is built through the public API and "
             "checked with all 8 implemented InclParam selections (no-sim variants on raw operands under 2 state numberings, sim variants with the "
             "cli/unit-test recipe: SanitizeAutsForInclusion + UnionDisjointStates + ComputeSimulation) against the reference subset-construction inclusion; "
-            "for every included pair the final antichain of the upward algorithm (exported by a guarded hook) is additionally checked to be sound and complete w.r.t. the reference reachable pairs, and in every step of its main loop every post-image computed must be subsumed by an entry the step keeps; in the non-recursive downward algorithm every state a choice function offers for a tuple position must be simulated by a state of the antichain kept for that position; "
+            "for every included pair the final antichain of the upward algorithm (exported by a guarded hook) is additionally checked to be sound and complete w.r.t. the reference reachable pairs, in every step of its main loop every post-image computed must be subsumed by an entry the step keeps, and every pair of the final antichain must have been taken from the work-list (expanded) at some point - the last three also on the up-only domain A in TA(2,{a,b,c:0,h:1},<=3) x B in TA(3,same,<=5) (thorough: <=4 x <=6), where two equal-size incomparable macro-states of one state wait while a smaller one arrives; in the non-recursive downward algorithm every state a choice function offers for a tuple position must be simulated by a state of the antichain kept for that position; "
             "a pair is non-trivial when both languages are non-empty and A != B (pairs are distinct by construction of the index bijection)",
     "assumptions": COMMON_ASSUMPTIONS,
     "claim": "Every ordered pair of tree automata of the stated finite domains is decided by all 8 implemented inclusion variants on the real library "
              "and compared with an exact reference; exhaustive within the bounds, nothing beyond them. Small-scope exhaustiveness is the right level because "
              "the known failure modes (leaf symbols on one side, rule-less / useless states, binary rules with differently reached children) all occur with <=3 states and <=4 rules.",
     "technique": "bounded exhaustive enumeration of automata pairs x all InclParam configurations against a reference subset construction",
-    "quick": [("rel", "c01.huge.n2s2k2"), ("rel", "c01.unimpl"), ("rel", "c01.n2s3k2"), ("rel", "c01.n2s2k3"), ("rel", "c01.trim.n2s3.a3b3"), ("rel", "c01.trim.n2s2.a3b5"), ("rel", "c01.trim.n3abf.a4b2")],
-    "thorough": [("rel", "c01.huge.n2s2k2"), ("rel", "c01.unimpl"), ("rel", "c01.trim.n3s3.a3b3"), ("rel", "c01.trim.n2s2.a4b6"), ("rel", "c01.trim.n2s2.a5b7"), ("rel", "c01.n2s3k3"), ("rel", "c01.n3agk4"), ("rel", "c01.n2s2k4"), ("rel", "c01.trim.n3s3.a3b4"), ("rel", "c01.trim.n3afh.a3b3"), ("rel", "c01.trim.n4s3p.a2b4"), ("rel", "c01.trim.n3abf.a5b3"), ("rel", "c01.trim.n3abfg1.a4b3"), ("rel", "c01.trim.n4abf.a4b3")],   # c01.trim.n4s3p.a3b4 and c01.trim.n3s3.a4b4 need > 25 min each: registered in the engine, not in a tier
+    "quick": [("rel", "c01.huge.n2s2k2"), ("rel", "c01.up.abch.a3b5"), ("rel", "c01.unimpl"), ("rel", "c01.n2s3k2"), ("rel", "c01.n2s2k3"), ("rel", "c01.trim.n2s3.a3b3"), ("rel", "c01.trim.n2s2.a3b5"), ("rel", "c01.trim.n3abf.a4b2")],
+    "thorough": [("rel", "c01.huge.n2s2k2"), ("rel", "c01.up.abch.a3b5"), ("rel", "c01.up.abch.a4b6"), ("rel", "c01.unimpl"), ("rel", "c01.trim.n3s3.a3b3"), ("rel", "c01.trim.n2s2.a4b6"), ("rel", "c01.trim.n2s2.a5b7"), ("rel", "c01.n2s3k3"), ("rel", "c01.n3agk4"), ("rel", "c01.n2s2k4"), ("rel", "c01.trim.n3s3.a3b4"), ("rel", "c01.trim.n3afh.a3b3"), ("rel", "c01.trim.n4s3p.a2b4"), ("rel", "c01.trim.n3abf.a5b3"), ("rel", "c01.trim.n3abfg1.a4b3"), ("rel", "c01.trim.n4abf.a4b3")],   # c01.trim.n4s3p.a3b4 and c01.trim.n3s3.a4b4 need > 25 min each: registered in the engine, not in a tier
     "require": {"all": ["expect_included", "nonemptyA_not_included", "nonemptyA_included", "class_A_nullary_B_lacks", "class_A_state_without_rules",
                         "class_useless_states", "class_binary_both", "unimpl_calls"]},
 }
